@@ -420,7 +420,7 @@ theorem client_opens_iff_valid_partial (cfg : CliCfg) (key data : Bytes)
         upgrade := (cstageUpgrade_ok wf).1 h2
         connection := (cstageConnection_ok wf).1 h3
         accept := (cstageAccept_ok wf key).1 h4
-        extensions := ⟨he.1, by unfold responseExtensionsOk; rw [he.2]; rfl⟩
+        extensions := ⟨he.1, by rw [responseExtensionsOk_eq, he.2]; rfl⟩
         protocol := ⟨hp.1, by
           rcases hp.2 with ⟨h0, _⟩ | ⟨_, hm, _⟩
           · exact .inl h0
@@ -429,7 +429,7 @@ theorem client_opens_iff_valid_partial (cfg : CliCfg) (key data : Bytes)
     have wf := parse_wf hparse
     have strict := hstrict line hs ⟨eoh, hfind, hparse⟩
     have hext := hvalid.extensions.2
-    unfold responseExtensionsOk at hext
+    rw [responseExtensionsOk_eq] at hext
     cases hl : cextLoop cfg (parseExtensions (value hs b!"sec-websocket-extensions")) false with
     | none => rw [hl] at hext; cases hext
     | some l =>
